@@ -54,6 +54,9 @@ type syncInput struct {
 	ShortRead  int    `json:"shortRead,omitempty"` // the source hands out at most this many bytes per Read
 	Unpriv     bool   `json:"unpriv,omitempty"`
 	SumDelayUS int    `json:"sumDelayUs,omitempty"`
+	// DiffModel: the case was enumerated by TLC from spec/DiffMergeMC.tla; the (kind, path) changes the ALGORITHM model emits
+	DiffModel   [][2]string `json:"diffModel,omitempty"`
+	IsDiffModel bool        `json:"isDiffModel,omitempty"`
 }
 
 func runSyncInput(c *Ctx, caseNo int, in syncInput) ([]vt.Ev, *SyncResult, error) {
@@ -78,6 +81,13 @@ func runSyncInput(c *Ctx, caseNo int, in syncInput) ([]vt.Ev, *SyncResult, error
 	}
 	o := SyncOpts{Mode: in.Mode, Differ: in.Differ, CapS2R: in.CapS, CapR2S: in.CapR,
 		Extra: vt.Ev{"input": vt.Opaque(in), "src": srcSnap.Ev(), "origin": in.Origin}}
+	if in.IsDiffModel {
+		dm := []vt.Ev{}
+		for _, x := range in.DiffModel {
+			dm = append(dm, vt.Ev{"k": x[0], "p": vt.P(x[1])})
+		}
+		o.Extra["diffModel"] = dm
+	}
 	if in.DelayUS > 0 {
 		// seeded per-operation delays on the stream (both endpoints, before and after each operation)
 		var mu sync.Mutex
@@ -137,7 +147,86 @@ func mustFS(dir string) fsutil.FS {
 }
 
 // Sync drives real Send against real Receive over trees (C01 and friends).
+// diffModelEntry: the entry a path of the DiffMergeMC universe stands for; everything is a function of (path, kind), so that
+// equal kinds at a path mean identical stats and bytes on both sides
+func diffModelEntry(p, kind string) model.Entry {
+	idx := map[string]int64{"a": 1, "a/a": 2, "a/a-b": 3, "a-b": 4, "a-b/a": 5, "a-b/a-b": 6}[p]
+	mt := int64(1400000000)*1000000000 + idx*1000
+	switch kind {
+	case "d":
+		return model.Entry{Path: p, Type: "dir", Perm: 0755, Mtime: mt + 1}
+	case "l":
+		to := "a-b"
+		if p == "a-b" {
+			to = "a"
+		}
+		return model.Entry{Path: p, Type: "symlink", Perm: 0777, Link: to, Mtime: mt + 2}
+	case "g":
+		e := model.Entry{Path: p, Type: "file", Perm: 0640, Mtime: mt + 3, Size: 5, DSeed: 7000 + idx}
+		e.Data = fileData(e.DSeed, 5)
+		e.Content = model.ContentID(e.Data)
+		return e
+	}
+	e := model.Entry{Path: p, Type: "file", Perm: 0644, Mtime: mt + 4, Size: 3, DSeed: 9000 + idx}
+	e.Data = fileData(e.DSeed, 3)
+	e.Content = model.ContentID(e.Data)
+	return e
+}
+
+// syncDiffModel: the (old destination, source) pairs TLC wrote for DiffMergeMC, each a real transfer
+func syncDiffModel(c *Ctx) error {
+	gen := os.Getenv("VERIF_GEN_DIR")
+	if gen == "" {
+		return fmt.Errorf("VERIF_GEN_DIR not set (TLC-generated case files of DiffMergeMC)")
+	}
+	files, _ := filepath.Glob(filepath.Join(gen, "diffcase_*.ndjson"))
+	sort.Strings(files)
+	stride := 7
+	if c.Thorough() {
+		stride = 1
+	}
+	var inputs []syncInput
+	for k, f := range files {
+		if k%stride != 0 {
+			continue
+		}
+		b, err := os.ReadFile(f)
+		if err != nil {
+			return err
+		}
+		var dc struct {
+			Name string                     `json:"name"`
+			Dst  []struct{ P, T string }    `json:"dst"`
+			Src  []struct{ P, T string }    `json:"src"`
+			Evs  []struct{ K, P, N string } `json:"evs"`
+		}
+		if err := json.Unmarshal(bytes.TrimSpace(b), &dc); err != nil {
+			return err
+		}
+		in := syncInput{Mode: "dirty", Differ: "metadata", CapS: 4, CapR: 4, Origin: "diffModel/" + dc.Name, IsDiffModel: true, DiffModel: [][2]string{}}
+		for _, e := range dc.Dst {
+			in.Dst = append(in.Dst, diffModelEntry(e.P, e.T))
+		}
+		for _, e := range dc.Src {
+			in.Src = append(in.Src, diffModelEntry(e.P, e.T))
+		}
+		in.Src.Sort()
+		in.Dst.Sort()
+		for _, e := range dc.Evs {
+			kind := map[string]string{"add": "add", "mod": "modify", "del": "delete"}[e.N] // the kind that is notified
+			in.DiffModel = append(in.DiffModel, [2]string{kind, e.P})
+		}
+		inputs = append(inputs, in)
+	}
+	c.Stats.Rule = "one case = one real transfer for an (old destination, source) pair enumerated by TLC from DiffMergeMC; non-trivial = the model emits at least one change"
+	c.Stats.Note(fmt.Sprintf("%d of %d pairs (every %d-th)", len(inputs), len(files), stride))
+	return runSyncInputs(c, inputs)
+}
+
 func Sync(c *Ctx) error {
+	if c.What == "diffmodel" && c.Replay == "" {
+		return syncDiffModel(c)
+	}
 	if c.What == "filtered" {
 		return syncFiltered(c)
 	}
@@ -726,6 +815,58 @@ func syncSchedules(c *Ctx) error {
 			}
 			c.Stats.Case(vt.Opaque(struct{ F, S int }{420, si}), true)
 			c.Stats.Count("runs", 1)
+		}
+	}
+	// a destination directory with many entries that the transfer replaces while the destination walker is still inside
+	// it: by a symlink that closes a cycle with a symlink the destination still holds (every lookup below it is then
+	// ELOOP), by a symlink to another directory (the walker sees that directory's entries under the old name), by a
+	// file (ENOTDIR).  The outcome must not depend on how far the walker got
+	{
+		many := func(dir string, n int) model.Tree {
+			t := model.Tree{{Path: dir, Type: "dir", Perm: 0755, Mtime: uniqueMtime()}}
+			for k := 0; k < n; k++ {
+				e := newFile(c.Rand, genOpts{})
+				e.Size, e.Data = 1, fileData(e.DSeed, 1)
+				e.Content = model.ContentID(e.Data)
+				e.Path = fmt.Sprintf("%s/f%04d", dir, k)
+				t = append(t, e)
+			}
+			return t
+		}
+		ln := func(p, to string) model.Entry { return model.Entry{Path: p, Type: "symlink", Perm: 0777, Link: to, Mtime: uniqueMtime()} }
+		dr := func(p string) model.Entry { return model.Entry{Path: p, Type: "dir", Perm: 0755, Mtime: uniqueMtime()} }
+		fl := func(p string) model.Entry { e := newFile(c.Rand, genOpts{}); e.Path = p; return e }
+		shapes := []struct {
+			name     string
+			dst, src model.Tree
+		}{
+			{"cycle", append(many("a", 300), ln("a-b", "a")), model.Tree{ln("a", "a-b"), dr("a-b")}},
+			{"otherDir", append(append(many("a", 300), many("t", 20)...), fl("z")), append(model.Tree{ln("a", "t")}, append(many("t", 20), fl("z"))...)},
+			{"file", many("a", 300), model.Tree{fl("a")}},
+		}
+		reps := 6
+		if c.Thorough() {
+			reps = 24
+		}
+		for _, sh := range shapes {
+			sh.dst.Sort()
+			sh.src.Sort()
+			for si := 0; si < reps; si++ {
+				in := syncInput{Src: sh.src, Dst: sh.dst, Mode: "dirty", Differ: "metadata", Origin: "sched/dirReplacedWhileWalked/" + sh.name,
+					CapS: []int{0, 2, 32}[si%3], CapR: []int{0, 2, 32}[(si/3)%3], SchedSeed: c.Rand.Int63(), DelayUS: []int{0, 50}[si%2], Procs: []int{1, 2, 4, 16}[si%4]}
+				evs, _, err := runSyncInput(c, c.NextCase(), in)
+				if err != nil {
+					return err
+				}
+				for _, e := range evs {
+					c.Out.Emit(e)
+				}
+				c.Stats.Case(vt.Opaque(struct {
+					N string
+					S int
+				}{sh.name, si}), true)
+				c.Stats.Count("runs", 1)
+			}
 		}
 	}
 	for ci := 0; ci < nCases; ci++ {
